@@ -40,6 +40,8 @@ DECIDING = {
     "ownership_checked": "published resources looked for in the caller's context",
     "waits_that_blocked": "waits that had to block (request before publication)",
     "trees_with_inherited_methods": "components inheriting prepare()/start() from an intermediate base class",
+    "trees_with_9plus_siblings": "components with 9-24 children started at once",
+    "components_publishing_themselves": "components that add themselves as a resource (own class, default name)",
     "reentrant_start_component_calls": "start_component called from inside a component's prepare()/start()",
 }
 ASSUMPTIONS = ["components do not shield themselves from cancellation; timeout=0 is not generated (DESIGN.md section 4)"]
@@ -52,7 +54,12 @@ def plan(tier: str) -> dict[str, Any]:
 
 def gen_case(idx: int, seed: int, tier: str) -> Any:
     rng = case_rng(PROPERTY, seed, idx)
-    tree = e2.gen_tree(rng, wait_heavy=rng.random() < 0.3)
+    if rng.random() < 0.08:
+        # a wide component: 9-24 children started at once, many of them waiting for (earlier and later) siblings
+        fan = rng.choice([9, 10, 12, 16, 24])
+        tree = e2.gen_tree(rng, max_depth=2, max_nodes=fan + 6, root_fan=fan, wait_heavy=True)
+    else:
+        tree = e2.gen_tree(rng, wait_heavy=rng.random() < 0.3)
     return {"backend": rng.choice(["asyncio", "trio"]), "sched_seed": rng.randrange(1 << 30), "shuffle": rng.random() < 0.5,
             "timeout": rng.choice([None, None, 1e6]), "probe_ctx": rng.random() < 0.3, "tree": tree}
 
@@ -64,6 +71,8 @@ def tree_features(tree: dict[str, Any]) -> dict[str, int]:
     depth = max(p.count(".") + 1 if p else 0 for p in nodes)
     if depth >= 2:
         c["trees_with_depth_3plus"] = 1
+    if any(len(n["children"]) >= 9 for n in nodes.values()):
+        c["trees_with_9plus_siblings"] = 1
     if any(n.get("methods_in_base") and (n["has_prepare"] or n["has_start"]) for n in nodes.values()):
         c["trees_with_inherited_methods"] = 1
     for p, n in nodes.items():
